@@ -567,6 +567,18 @@ int yr_arena_load_stream(YR_STREAM* stream, YR_ARENA** arena)
   if (read != hdr.num_buffers)
     return ERROR_CORRUPT_FILE;
 
+  // The buffers are stored one after the other, right after the table.
+  uint64_t expected_offset = sizeof(hdr) +
+                             sizeof(buffers[0]) * hdr.num_buffers;
+
+  for (int i = 0; i < hdr.num_buffers; ++i)
+  {
+    if (buffers[i].offset != expected_offset)
+      return ERROR_CORRUPT_FILE;
+
+    expected_offset += buffers[i].size;
+  }
+
   YR_ARENA* new_arena;
 
   FAIL_ON_ERROR(yr_arena_create(hdr.num_buffers, 10485, &new_arena))
